@@ -668,12 +668,31 @@ _public_ int m_mod_stats(const m_mod_t *mod, m_mod_stats_t *stats) {
 
 /** Module state setters **/
 
+/*
+ * Callbacks run by fn() may bind other modules to mod, stop it (thus unbinding everything)
+ * or even destroy it: walk a private copy of the list that keeps the bound modules alive.
+ */
+static void bound_foreach(m_mod_t *mod, int (*fn)(m_mod_t *)) {
+    m_queue_t *bound = m_queue_new(mem_dtor);
+    if (bound) {
+        m_itr_foreach(mod->bound_mods, {
+            m_mod_t *bmod = m_mem_ref(m_itr_get(m_itr));
+            if (m_queue_enqueue(bound, bmod) != 0) {
+                m_mem_unref(bmod);
+            }
+        });
+        m_mod_t *bmod;
+        while ((bmod = m_queue_dequeue(bound))) {
+            fn(bmod);
+            m_mem_unref(bmod);
+        }
+        m_queue_free(&bound);
+    }
+}
+
 #define M_MOD_BOUND(fn) \
-    if (ret == 0) { \
-        m_itr_foreach(mod->bound_mods, { \
-            m_mod_t *bmod = m_itr_get(m_itr); \
-            fn(bmod); \
-        }); \
+    if (ret == 0 && m_list_len(mod->bound_mods) > 0) { \
+        bound_foreach(mod, fn); \
     }
 
 _public_ int m_mod_start(m_mod_t *mod) {
